@@ -2,6 +2,7 @@
 import os, sys, json, time, importlib, re, traceback
 
 HERE = os.path.dirname(os.path.abspath(__file__))
+EVDIR = os.environ.get('VERIF_EVIDENCE_DIR') or os.path.join(HERE, 'evidence')
 
 def all_ids():
     ids = []
@@ -87,11 +88,11 @@ def run_property(pid, ff, ff_rel, repo, tier, seed, replay, t_extract):
         with open(replay) as f: want = json.load(f).get('key')
         new = [v for v in new if v['key'] == want]
         kf = []
-    os.makedirs(os.path.join(HERE, 'evidence', 'replay'), exist_ok=True)
+    os.makedirs(os.path.join(EVDIR, 'replay'), exist_ok=True)
     for v in kf:
         print('KNOWN-FINDING: property=%s %s %s' % (pid, v['key'], known_keys[v['key']].get('what', v['msg'])))
     for v in new:
-        rp = os.path.join(HERE, 'evidence', 'replay', '%s-%s.json' % (pid, re.sub(r'[^A-Za-z0-9_.-]+', '_', v['key'])[:150]))
+        rp = os.path.join(EVDIR, 'replay', '%s-%s.json' % (pid, re.sub(r'[^A-Za-z0-9_.-]+', '_', v['key'])[:150]))
         with open(rp, 'w') as f:
             json.dump({'property': pid, 'key': v['key'], 'rule': v['rule'], 'subject': v['subject'], 'where': v['sp'],
                        'message': v['msg'], 'detail': v['detail'],
@@ -125,7 +126,7 @@ def run_property(pid, ff, ff_rel, repo, tier, seed, replay, t_extract):
     ev = {'property_id': pid, 'tier': tier, 'seed': seed, 'level': level, 'coverage': cov,
           'assumptions': getattr(mod, 'ASSUMPTIONS', []) + rep.assumptions, 'wall_s': round(wall, 3), 'violations': len(new)}
     if not replay:
-        with open(os.path.join(HERE, 'evidence', '%s.json' % pid), 'w') as f:
+        with open(os.path.join(EVDIR, '%s.json' % pid), 'w') as f:
             json.dump(ev, f, indent=1)
     print('%s tier=%s obligations=%d discharged=%d known=%d new=%d functions=%d wall=%.1fs' % (pid, tier, n_ob, n_ok, len(kf), len(new), len(rep.analysed), wall))
     return 1 if new else 0
